@@ -157,6 +157,37 @@ func harvCase(tag string, r *rng, g *hermes.GlobalVarsMain, l *hermes.NitroShare
 		"nresid": hx(out.Nresid), "nagb": hx(out.Nagb), "pesum_kept": keepCrop && jn != 0 && jn != 1, "pesum": hx(g.PESUM)}})
 }
 
+// the simulated dressing of the fertiliser prognosis (dung.go): exported, called directly
+func progCase(tag string, r *rng) {
+	g := hermes.NewGlobalVarsMain()
+	zeit := 30000
+	g.PROGNOS = zeit - 1 - r.intn(3)
+	g.AKF.SetByIndex(1)
+	g.ERNTE[1] = zeit + 100
+	g.ENDE = 0
+	g.WG[0][0] = r.between(0.03, 0.45)
+	g.C1[0] = r.between(0, 120)
+	if r.chance(0.3) {
+		g.C1[0] = r.between(0, 5)
+	}
+	g.DUNGBED = r.between(0, 80)
+	dtgesn := r.between(0, 8)
+	sumdiff, trnsum := r.between(0, 4), r.between(0, 3)
+	if r.chance(0.25) {
+		dtgesn = r.between(20, 200) // a large uncovered demand: the concentration cap decides
+	}
+	if r.chance(0.15) {
+		sumdiff = dtgesn // supply covers the demand
+	}
+	c10, dung0 := g.C1[0], g.DUNGBED
+	hermes.SimulateFertilizationAfterPrognose(zeit, dtgesn, sumdiff, trnsum, &g)
+	if !(g.C1[0] >= c10) || !(g.DUNGBED >= dung0) || math.IsNaN(g.C1[0]) {
+		oracleFail("prognosis-dressing-removes-n tag=%s c1-before=%v after=%v booked-before=%v after=%v demand=%v supply=%v water=%v", tag, c10, g.C1[0], dung0, g.DUNGBED, dtgesn, sumdiff+trnsum, g.WG[0][0])
+	}
+	emit(jobj{"k": "prog", "tag": tag, "in": jobj{"c10": hx(c10), "dtgesn": hx(dtgesn), "angebot": hx(sumdiff + trnsum), "wg0": hx(g.WG[0][0]),
+		"dz": hx(g.DZ.Num), "dungbed": hx(dung0)}, "out": jobj{"c1": hx(g.C1[0]), "dungbed": hx(g.DUNGBED)}})
+}
+
 func minInt(a, b int) int {
 	if a < b {
 		return a
